@@ -72,6 +72,8 @@ def items(tier, seed):
             if tier == "quick" and (ni + mi) % 4 != 1:
                 continue
             its.append({"kind": "D", "inputs": list(inputs), "output": output, "name": name, "init": ("caterpillar" if (ni + mi) % 2 else "greedy"), "sizes": 0, "slice_mode": mode, "tier": tier})
+            if tier != "quick" or (ni + mi) % 8 == 1:
+                its.append({"kind": "D", "inputs": list(inputs), "output": output, "name": name, "init": ("caterpillar" if (ni + mi) % 2 else "greedy"), "sizes": 1, "slice_mode": mode, "tier": tier})
     sk = skel.skeletons(2, 2, 4, 1, outputs="unordered") + skel.skeletons(3, 2, 4, 1, outputs="unordered")
     sk = sk[::7] if tier == "quick" else sk[::2] + skel.skeletons(4, 2, 4, 1, max_positions=7, outputs="unordered")[::8]
     for i in range(0, len(sk), 2):
